@@ -419,6 +419,18 @@ func init() {
 	reg(&StageDef{Name: "ContextWithValue", GenP: noP, Build: func(e *Env, aux []ro.Observable[int], p []int) func(ro.Observable[int]) ro.Observable[int] {
 		return ro.ContextWithValue[int](ctxKey("mid"), "ContextWithValue")
 	}})
+	// ContextWithTimeout gives every value its own deadline, counted from the emission; the probe behind it
+	// negates a value whose context has already expired when it arrives
+	reg(&StageDef{Name: "CtxTimeoutProbe", GenP: noP, Build: func(e *Env, aux []ro.Observable[int], p []int) func(ro.Observable[int]) ro.Observable[int] {
+		to := ro.ContextWithTimeout[int](50 * Unit)
+		probe := ro.MapWithContext(func(ctx context.Context, x int) (context.Context, int) {
+			if ctx != nil && ctx.Err() != nil {
+				return ctx, -x - 1
+			}
+			return ctx, x
+		})
+		return func(src ro.Observable[int]) ro.Observable[int] { return probe(to(src)) }
+	}})
 	reg(&StageDef{Name: "ContextMap", GenP: noP, Build: func(e *Env, aux []ro.Observable[int], p []int) func(ro.Observable[int]) ro.Observable[int] {
 		return ro.ContextMap[int](func(ctx context.Context) context.Context {
 			e.Call("ContextMap")
